@@ -22,7 +22,7 @@ DESIGN_INVS = ["TypeOK", "DecodeRecoversSource", "BranchReach", "RelLands", "Ali
 
 BRANCHES = ["br", "bne", "beq", "bge", "blt", "bgt", "ble", "bpl", "bmi", "bhi", "blos", "bvc", "bvs",
             "bcc", "bhis", "bcs", "blo"]
-ALL_SHAPES = ["dot", "dotdec", "dec", "lbl", "lblp", "lblm", "loc", "locc", "locp", "numlocc", "parlbl", "lblc"]
+ALL_SHAPES = ["dot", "dotdec", "dec", "lbl", "lblp", "lblm", "loc", "locc", "locp", "numlocc", "parlbl", "lblc", "plbl"]
 
 
 def tla_set(items):
@@ -73,6 +73,8 @@ def target_text(a, shape, A, label):
         return ". + %d." % k if k >= 0 else ". - %d." % -k
     if shape == "lbl":
         return label
+    if shape == "plbl":
+        return "2+" + label              # the number first (in a branch operand a leading number would be a local label: relative operands only)
     if shape == "lblc":
         return "c" + label               # a symbol the program defines by assignment: c<label> = <label>
     if shape == "lblp":
@@ -191,7 +193,8 @@ def render_alone(rec, variant):
     else:
         pre, post = 0, 0
     start = A - pre
-    if not (start == 0o1000 and variant % 4 == 3 and not near):
+    link_last = variant % 4 == 1         # every fourth case states its base at the very end: unknown while the text is read
+    if not (start == 0o1000 and variant % 4 == 3 and not near) and not link_last:
         lines.append(".link %o" % start)
     for addr, nm in far:
         if local:
@@ -212,6 +215,8 @@ def render_alone(rec, variant):
     lines += pad_lines(A + L, A + L + post, after)
     if variant % 2 == 1:
         lines += aliases
+    if link_last:
+        lines.append(".link %o" % start)
     return "\n".join(lines) + "\n", start, pre, pre + L + post
 
 
